@@ -1,5 +1,6 @@
 import Pyxv.Model.Json
 import Pyxv.Model.Refs
+import Pyxv.Model.RefsText
 /-! Driver operations for the reference slice (C03). -/
 namespace Pyxv.Refs
 open Lean Pyxv
@@ -86,6 +87,12 @@ def opsRefs (op : String) (j : Json) : Option (Except String Json) :=
         pure (Json.mkObj [("ipar_x", optStr (isParentARepeat reps x)), ("ipar_c", optStr (isParentARepeat reps c)),
                           ("ssrp", ss), ("related", rel)])
       pure (Json.arr out.toArray)
+  | "refs.find" => some do
+      -- BRACKETED_TAG_REGEX occurrences of each text: [[lastSaved, name], …], and whether every `${` opens one
+      let texts ← getStrList j "texts"
+      pure (Json.arr (texts.map fun t =>
+        Json.mkObj [("refs", Json.arr ((findRefs (t.length + 1) t).map fun (ls, n) => Json.arr #[Json.bool ls, jstr n]).toArray),
+                    ("closed", Json.bool (refsClosed (t.length + 1) t))]).toArray)
   | "refs.valid" => some do
       -- is the hypothesis `Valid` of `relative_when_enclosed` met by this tree?
       let tree ← elOfJson (← j.getObjVal? "tree")
